@@ -112,7 +112,10 @@ def run(ctx: core.Ctx):
                 meta.append({"src": msrc, "kind": kind, "model_refused": True, "attr": uses_attr})
     # direction B: recorded converter traces (repository programs, repository tests, derived programs) validated by
     # TLC against Converter.tla; this check owns the structural clauses (names, scopes, definitions, outputs)
-    convtrace.stage(ctx, [m["src"] for m in meta if m["kind"] == "program"][:1500 if ctx.quick else 6000], "C02")
+    # hand-written and generated programs outside Script.tla's grammar: every accepted one must give a loadable model (C02 owns
+    # validity; values are C01's), and their recorded traces go through the structural clauses of Converter.tla as well
+    _, xtraces = convtrace.run_extra(ctx, owner="C02")
+    convtrace.stage(ctx, [m["src"] for m in meta if m["kind"] == "program"][:1500 if ctx.quick else 6000], "C02", extra_traces=xtraces)
     results = core.pmap_safe(run_case, cases, timeout=60)
     items = []
     for r in results:
